@@ -41,5 +41,16 @@ func init() {
 			Old: "\tif err == nil && h[0].Height() != req.GetOrigin() {", New: "\tif err == nil && req.GetOrigin() != h[0].Height() {"},
 		Variant{Prop: "C05", Name: "benign-sort-commuted", File: se,
 			Old: "\t\treturn headers[i].Height() < headers[j].Height()\n\t})\n\n\tlog.Debugw(\"received headers range\"", New: "\t\treturn headers[j].Height() > headers[i].Height()\n\t})\n\n\tlog.Debugw(\"received headers range\""},
+			// the exit of the collecting loop carried by a flag that is false on entry (benign E7-5): the
+		// loop runs at least once, what reaches the code after it is what the last trip stored
+		Variant{Prop: "C05", Name: "benign-collecting-loop-exit-by-flag", File: se,
+			Old: "LOOP:\n\tfor {\n\t\tselect {", New: "\tcomplete := false\n\tfor !complete {\n\t\tselect {",
+			More: []Edit{{File: se, Old: "\t\t\theaders = append(headers, res...)\n\t\t\tif uint64(len(headers)) >= amount {\n\t\t\t\tbreak LOOP\n\t\t\t}\n", New: "\t\t\theaders = append(headers, res...)\n\t\t\tcomplete = uint64(len(headers)) >= amount\n"}}},
+		Variant{Prop: "C05", Name: "collecting-loop-flag-set-after-first-answer", File: se, Expect: "C05.b",
+			Old: "LOOP:\n\tfor {\n\t\tselect {", New: "\tcomplete := false\n\tfor !complete {\n\t\tselect {",
+			More: []Edit{{File: se, Old: "\t\t\theaders = append(headers, res...)\n\t\t\tif uint64(len(headers)) >= amount {\n\t\t\t\tbreak LOOP\n\t\t\t}\n", New: "\t\t\theaders = append(headers, res...)\n\t\t\tcomplete = true\n"}}},
+		Variant{Prop: "C05", Name: "collecting-loop-flag-true-on-entry", File: se, Expect: "C05.b",
+			Old: "LOOP:\n\tfor {\n\t\tselect {", New: "\tcomplete := amount == 0\n\tfor !complete {\n\t\tselect {",
+			More: []Edit{{File: se, Old: "\t\t\theaders = append(headers, res...)\n\t\t\tif uint64(len(headers)) >= amount {\n\t\t\t\tbreak LOOP\n\t\t\t}\n", New: "\t\t\theaders = append(headers, res...)\n\t\t\tcomplete = uint64(len(headers)) >= amount\n"}}},
 	)
 }
